@@ -253,6 +253,12 @@ def obligations(tier, seed):
     for gname, level, size, limit in lim_cfgs:
         specs.append(spec(MOD, 'TileLimit', 'tile-limit/%s/L%d/%dx%d/max%d' % (gname, level, size[0], size[1], limit),
                           cfg=dict(grid=gname, seed=seed, level=level, size=list(size), limit=limit), cost=30))
+    # "... nor store a tile address outside the grid": the tiles a meta tile is cut into (and stored as) are in-grid
+    # addresses -- the C04 meta-tile harness (its assertion includes 0 <= x < cols, 0 <= y < rows for every cut tile)
+    for gname, level in (('utm_ll', 2), ('utm_ul', 1), ('frac_ll', 2), ('sqrt2_ll', 3)) + ((('multi0_ul', 1), ('align0_ll', 1)) if tier == 'thorough' else ()):
+        for ms, mb in (((4, 4), 0), ((3, 2), 10)):
+            specs.append(spec('props.C04_meta', 'MetaTileGeo', 'stored-meta-tile-addresses-in-grid/%s/m%dx%d-b%d/L%d' % (gname, ms[0], ms[1], mb, level),
+                              cfg=dict(grid=gname, seed=seed, level=level, meta_size=list(ms), meta_buffer=mb), cost=3))
     twins = dict(TileAddr=dict(grid='utm_ul', origin='nw', use_profiles=False),
                  Render=dict(grid='merc_ll', origin='sw', use_profiles=True, format='png', dims={}),
                  TileLimit=dict(grid='utm_ll', level=3, size=[600, 500], limit=6))
@@ -278,7 +284,7 @@ META = dict(
                 'tile-manager calls for out-of-matrix addresses, wrong formats and dimension values outside the '
                 'configured list; and that CacheMapLayer._image refuses requests at or above max_tile_limit before any '
                 'tile-manager call and hands only in-grid (or None) coordinates to the tile manager.',
-    functions=sorted(set(TileAddr.functions + Render.functions + TileLimit.functions)),
+    functions=sorted(set(TileAddr.functions + Render.functions + TileLimit.functions + ['MetaGrid.meta_tile', 'MetaGrid._meta_tile_list'])),
     bounds='tile addresses: unbounded ints; formats/dimension values: enumerated cases; map requests: symbolic bbox '
            'of fixed pixel size at the resolution of one level, anywhere overlapping the grid (+- one request size)',
     outside='regex parsing of the URL (re is C code), WMTS KVP parameter parsing, max_output_pixels (plain int comparison, '
